@@ -367,6 +367,10 @@ def _theorem_at(lines: list[str], lineno: int) -> str | None:
         m = re.match(r"\s*theorem\s+(\S+)", lines[i])
         if m:
             return m.group(1)
+        if re.match(r"\s*example\b", lines[i]):
+            # every `example` that can be affected by the source is stated over Generated.* (tables and probe
+            # records); the others are over frozen, hand-written tables
+            return f"example@{i + 1}"
     return None
 
 
@@ -378,7 +382,8 @@ def classify_build_failure(out: str) -> tuple[bool, list[str]]:
         f, ln = m.group(1), int(m.group(2))
         if f.endswith("Properties/C17.lean"):
             th = _theorem_at(src, ln)
-            (broken if th in TIE_THEOREMS else other).append(th or f"{f}:{ln}")
+            (broken if (th in TIE_THEOREMS or (th or "").startswith("example@")) else other).append(
+                th or f"{f}:{ln}")
         elif f.endswith("Generated/Fields.lean"):
             broken.append(f"Generated/Fields.lean:{ln}")
         else:
